@@ -245,6 +245,18 @@ fn run_with_fault(script: &[J], f: Fault, base_state: &J) -> (Vec<String>, Resul
             sess.med.reset_counters();
         }
         if !ok {
+            // the failure was reported; a caller may well try to save again or take the medium back: those calls
+            // may fail too, but must not panic (the fault stays armed the way it was)
+            if res.last().map(|r| r == "Err").unwrap_or(false) && sess.is_open() {
+                for tail in [ev("Flush", json!({})), ev("Flush", json!({})), ev("IntoInner", json!({}))] {
+                    let r2 = sess.exec(&tail);
+                    let stop = r2 == "panic";
+                    res.push(r2);
+                    if stop {
+                        break;
+                    }
+                }
+            }
             fired += sess.med.counters().faults;
             return (res, Ok(()), done, fired, tr);
         }
